@@ -63,8 +63,16 @@ impl<'a, 'b> PGen<'a, 'b> {
             1 => Stage::Filter(self.d.below(5) as u8),
             2 => Stage::Scan(self.d.below(4) as u8, self.d.below(7) as i64 - 2),
             // 255 stands for usize::MAX (scn::count_param)
-            3 => Stage::Take(if self.d.below(12) == 11 { 255 } else { 1 + self.d.below(6) as u8 }),
-            _ => Stage::Skip(if self.d.below(12) == 11 { 255 } else { self.d.below(6) as u8 }),
+            3 => Stage::Take(match self.d.below(16) {
+                15 => 255,
+                14 => 254,
+                _ => 1 + self.d.below(6) as u8,
+            }),
+            _ => Stage::Skip(match self.d.below(16) {
+                15 => 255,
+                14 => 254,
+                _ => self.d.below(6) as u8,
+            }),
         }
     }
     fn pipes(&mut self, depth: usize, max: usize) -> Vec<Pipe> {
@@ -670,8 +678,8 @@ fn shrink_pipe(p: &Pipe) -> Vec<Pipe> {
             out.push(q);
         };
         match s {
-            Stage::Take(255) => push(Stage::Take(6)),
-            Stage::Skip(255) => push(Stage::Skip(6)),
+            Stage::Take(254 | 255) => push(Stage::Take(6)),
+            Stage::Skip(254 | 255) => push(Stage::Skip(6)),
             Stage::Take(n) if *n > 1 => push(Stage::Take(n - 1)),
             Stage::Skip(n) if *n > 0 => push(Stage::Skip(n - 1)),
             Stage::ConcatWith(ps) | Stage::FlatMap(ps) => {
